@@ -63,7 +63,7 @@ def arr_index(ex, st, a, sl_, node):
             and isinstance(elts[0], ast.Slice) and elts[0].step is None:
         lohi = M.slice_parts(ex, st, elts[0], a.shape[0], node)
         lo, hi = lohi
-        ex.oblige(st, 'safety', 'slice-in-range', z3.And(Z(lo) >= 0, Z(lo) <= Z(hi), Z(hi) <= Z(a.shape[0])), node)
+        ex.oblige(st, 'restriction', 'slice-in-range', z3.And(Z(lo) >= 0, Z(lo) <= Z(hi), Z(hi) <= Z(a.shape[0])), node)
         return VArr((Z(hi) - Z(lo),), None, None, a.dtype)
     # A[lo:hi] (rows) on 2-D / 3-D arrays
     if isinstance(a, VArr) and a.ndim in (2, 3) and len(elts) == 1 and isinstance(elts[0], ast.Slice) and elts[0].step is None:
